@@ -5,7 +5,7 @@ cd "$(dirname "$0")"
 export CARGO_NET_OFFLINE=true
 REPO="${PV_REPO:-/repo}"
 mkdir -p .cache out evidence
-python3 tools/extract.py --repo "$REPO"
+python3 tools/extract.py --repo "$REPO" --family main
 ( cd coq && coq_makefile -f _CoqProject -o Makefile >/dev/null && timeout 3000 make -j"$(nproc)" )
 sh model_runner/build.sh
 cp "$REPO/Cargo.lock" harness/Cargo.lock
@@ -14,6 +14,7 @@ cp "$REPO/Cargo.lock" harness/Cargo.lock
 for f in fam/*/; do
   [ -d "$f" ] || continue
   name=$(basename "$f")
+  if [ -f "tools/extract_$name.py" ]; then python3 tools/extract.py --repo "$REPO" --family "$name"; fi
   if [ -f "$f/coq/_CoqProject" ]; then ( cd "$f/coq" && coq_makefile -f _CoqProject -o Makefile >/dev/null && timeout 3000 make -j"$(nproc)" ); fi
   if [ -f "$f/runner/build.sh" ]; then sh "$f/runner/build.sh"; fi
   if [ -f "$f/harness/Cargo.toml" ]; then
